@@ -110,7 +110,13 @@ def run(v):
             if r.get("rebinds"):
                 rebinding.setdefault(i, set()).update(r["rebinds"])
     lap("record")
-    pairs = [(i, j, w) for i in range(len(S)) for j in range(len(S)) for w in (False, True) if not (quick and w and i != j and (i + j) % 3)]
+    pairs = [(i, j, w) for i in range(len(S)) for j in range(len(S)) for w in (False, True) if not (quick and w and i != j and (i + j) % 5)]
+    # two programs can only interact through a location one of them writes and the other touches
+    wl = {k: {e[1] for e in pr if e[0] != "R"} for k, pr in progs.items()}
+    al = {k: {e[1] for e in pr} for k, pr in progs.items()}
+    n_all = len(pairs)
+    pairs = [(i, j, w) for (i, j, w) in pairs if (wl[(i, w)] & al[(j, w)]) or (wl[(j, w)] & al[(i, w)])]
+    v.cov["pairs_with_a_shared_written_location"] = "%d of %d" % (len(pairs), n_all)
     tl_pairs = [{"A": progs[(i, w)], "B": progs[(j, w)]} for (i, j, w) in pairs]
     json.dump({"pairs": tl_pairs, "none": calls.digest(None)[:8]}, open(d + "/progs.json", "w"))
     res = core.run_tlc(d, "A5Threads", cfg="MC_Threads.cfg", env={"PROGS": d + "/progs.json"}, timeout=2400, heap="16g")
@@ -195,7 +201,7 @@ def run(v):
     djobs, dmeta = [], []
     for i in range(len(S)):
         for j in range(len(S)):
-            for w in ((False, True) if (not quick or i == j or (i + j) % 4 == 0) else (False,)):
+            for w in ((False, True) if (not quick or i == j or (i + j) % 7 == 0) else (False,)):
                 every = max(1, nlines[(i, False)] * nlines[(j, False)] // 150000000)      # keep one dense run within a few seconds
                 djobs.append({"fn": "dense", "args": [S[i], S[j], w, every]})
                 dmeta.append((i, j, w))
